@@ -11,39 +11,64 @@
 (***************************************************************************)
 EXTENDS Naturals, Sequences, FiniteSets, TLC
 CONSTANTS Blocklisted,     \* TRUE: instance-dependent types are on the cache blocklist (as in the code)
-          MaxCalls
-VARIABLES memo, calls, last, hist
-rvars == <<memo, calls, last, hist>>
+          MaxCalls,
+          Dev_KeyByAddress \* deviation (never in the code under test): the memo is keyed by the ADDRESS of the type object
+VARIABLES memo, calls, last, hist,
+          alive,           \* types (classes) that exist now
+          born,            \* types that exist or have existed (a class is created once)
+          addr             \* [type -> address]: two types never share an address WHILE BOTH ARE ALIVE
+rvars == <<memo, calls, last, hist, alive, born, addr>>
 
 Cats == <<"SEQUENCE", "MAPPING">>          \* order of the identifier functions
-Types == {"dict", "list", "str", "both", "neither", "array"}
+StaticTypes == {"dict", "list", "str", "both", "neither", "array"}
+\* classes created and garbage-collected at run time: a Mapping class and a Sequence class
+DynTypes == {"dynmap", "dynseq"}
+Types == StaticTypes \cup DynTypes
+DynAddrs == {"A1"}                      \* one heap slot that the allocator hands out again after a class died
 Insts == {0, 1}
 Values == [ty : Types, inst : Insts]
 InstanceDependent(t) == t = "array"
 
 Matches(cat, v) ==
-  CASE cat = "MAPPING" -> v.ty \in {"dict", "both"}
-    [] cat = "SEQUENCE" -> v.ty \in {"list", "both"} \/ (v.ty = "array" /\ v.inst = 1)
+  CASE cat = "MAPPING" -> v.ty \in {"dict", "both", "dynmap"}
+    [] cat = "SEQUENCE" -> v.ty \in {"list", "both", "dynseq"} \/ (v.ty = "array" /\ v.inst = 1)
 
 \* history-independent truth: the first category whose identifier accepts the value, "NONE" otherwise
 FirstMatch(v) == LET hits == {i \in 1..Len(Cats) : Matches(Cats[i], v)}
                  IN IF hits = {} THEN "NONE" ELSE Cats[CHOOSE i \in hits : \A j \in hits : i <= j]
 
-Init == memo = [t \in {} |-> "NONE"] /\ calls = 0 /\ last = [v |-> [ty |-> "str", inst |-> 0], r |-> "NONE"] /\ hist = <<>>
+\* the memo key of a type: the type object itself (which the memo thereby keeps alive), or its address
+Key(t) == IF Dev_KeyByAddress THEN addr[t] ELSE t
+
+Init == /\ memo = [t \in {} |-> "NONE"] /\ calls = 0 /\ last = [v |-> [ty |-> "str", inst |-> 0], r |-> "NONE"] /\ hist = <<>>
+        /\ alive = StaticTypes /\ born = StaticTypes /\ addr = [t \in Types |-> t]
 
 \* get_type(v) exactly as utils.py:70-98
 GetType(v) ==
   /\ calls < MaxCalls
-  /\ LET r == IF v.ty \in DOMAIN memo THEN memo[v.ty] ELSE FirstMatch(v)
+  /\ v.ty \in alive
+  /\ LET k == Key(v.ty)
+         r == IF k \in DOMAIN memo THEN memo[k] ELSE FirstMatch(v)
      IN /\ last' = [v |-> v, r |-> r]
-        /\ memo' = IF v.ty \in DOMAIN memo \/ (Blocklisted /\ InstanceDependent(v.ty)) THEN memo
-                   ELSE [t \in DOMAIN memo \cup {v.ty} |-> IF t = v.ty THEN r ELSE memo[t]]
+        /\ memo' = IF k \in DOMAIN memo \/ (Blocklisted /\ InstanceDependent(v.ty)) THEN memo
+                   ELSE [t \in DOMAIN memo \cup {k} |-> IF t = k THEN r ELSE memo[t]]
         /\ hist' = Append(hist, [ty |-> v.ty, inst |-> v.inst, r |-> r])
   /\ calls' = calls + 1
-Next == \E v \in Values : GetType(v)
+  /\ UNCHANGED <<alive, born, addr>>
+\* a class is created at run time at a free address ...
+Birth(t, a) == /\ t \in DynTypes \ born /\ a \in DynAddrs /\ \A u \in alive : addr[u] # a
+               /\ alive' = alive \cup {t} /\ born' = born \cup {t} /\ addr' = [addr EXCEPT ![t] = a]
+               /\ UNCHANGED <<memo, calls, last, hist>>
+\* ... and garbage-collected - which cannot happen while the memo holds a reference to it
+Death(t) == /\ t \in alive \cap DynTypes
+            /\ Dev_KeyByAddress \/ t \notin DOMAIN memo
+            /\ alive' = alive \ {t}
+            /\ UNCHANGED <<memo, calls, last, hist, born, addr>>
+Next == \/ \E v \in Values : GetType(v)
+        \/ \E t \in DynTypes : Death(t) \/ \E a \in DynAddrs : Birth(t, a)
 
 \* C19: every answer equals the value's own category, whatever was classified before
 C19_HistoryIndependent == calls > 0 => last.r = FirstMatch(last.v)
 \* the memo is sound: a cached type has one category for all its instances
-MemoSound == \A t \in DOMAIN memo : \A i \in Insts : FirstMatch([ty |-> t, inst |-> i]) = memo[t]
+MemoSound == \A t \in alive : Key(t) \in DOMAIN memo => \A i \in Insts : FirstMatch([ty |-> t, inst |-> i]) = memo[Key(t)]
 =============================================================================
